@@ -1,55 +1,127 @@
 /-
-  Decidable trace predicates: the statements of the connection-task properties (C01, C08–C11, C20), in a form
-  that is evaluated both on the model's trace (theorems in Props/) and on the implementation's observed trace
-  (driver).  Everything is executable and Mathlib-free.
+  Decidable trace predicates: the statements of the connection-task properties (C01, C06-level-3, C08–C11, C20),
+  in a form that is evaluated both on the model's trace (theorems in Props/) and on the implementation's observed
+  trace (driver).  Each predicate is a small monitor: a state, and a step function that accepts or rejects one
+  (input, observations, end-marker) triple.  Everything is executable and Mathlib-free.
 -/
 import RdestModel.Swarm.Trace
 namespace Rdest.Swarm
 open Rdest Rdest.Wire Rdest.Gen
 
-/-! ### C20: keep-alive discipline -/
+abbrev TEntry := TIn × List Obs × Option Bool
 
-/-- What `k` consecutive timer ticks must produce when `silent` ticks have already passed since the last real
-    message: a `KeepAlive` per tick, until the limit is reached — that tick closes the connection instead.
-    Returns (observations, new silent count, still alive). -/
-def kaSpec (limit : Nat) : Nat → Nat → List Obs × Nat × Bool
-  | silent, 0 => ([], silent, true)
-  | silent, k + 1 =>
-    if silent = limit then ([], silent, false)
-    else
-      let r := kaSpec limit (silent + 1) k
-      (.write .keepAlive :: r.1, r.2.1, r.2.2)
+/-- Run a monitor over a trace. -/
+def checkTrace {σ : Type} (step : σ → TEntry → Option σ) : σ → Trace → Bool
+  | _, [] => true
+  | st, x :: xs =>
+    match step st x with
+    | some st' => checkTrace step st' xs
+    | none => false
+
+/-- After the task has ended nothing may be observed any more (shared by all monitors). -/
+def deadOk (x : TEntry) : Bool := x.2.1.isEmpty && x.2.2.isNone
 
 def isKeepAlive : Msg → Bool
   | .keepAlive => true
   | _ => false
 
-/-- C20 on a trace: ticks behave exactly like `kaSpec` driven by the count of ticks since the last
-    non-keep-alive frame, and nothing at all is emitted after the task has ended. -/
-def P20 (limit : Nat) : Nat → Bool → Trace → Bool
-  | _, _, [] => true
-  | silent, alive, (inp, obs, ended) :: rest =>
-    if !alive then obs.isEmpty && ended.isNone && P20 limit silent false rest
-    else
-      match inp with
-      | .ticks k =>
-        let r := kaSpec limit silent k
-        -- a closing tick ends the task with an error (`KeepAliveTimeout`), any other tick does not end it
-        decide (obs = r.1) && decide (ended = if r.2.2 then none else some false) && P20 limit r.2.1 r.2.2 rest
-      | .frame m _ _ =>
-        P20 limit (if isKeepAlive m then silent else 0) ended.isNone rest
-      | _ => P20 limit silent ended.isNone rest
+def isPieceWrite : Obs → Bool
+  | .write (.piece ..) => true
+  | _ => false
 
+def isWrite : Obs → Bool
+  | .write _ => true
+  | _ => false
+
+/-! ### C20: keep-alive discipline -/
+
+/-- `kaRun` as observations: (keep-alives written, new silent count, still alive). -/
+def kaSpec (limit silent k : Nat) : List Obs × Nat × Bool :=
+  let r := kaRun limit silent k
+  (List.replicate r.1 (.write .keepAlive), r.2.1, r.2.2)
+
+structure M20 where
+  silent : Nat
+  alive : Bool
+
+/-- C20 monitor: ticks behave exactly like `kaSpec` driven by the count of ticks since the last non-keep-alive
+    frame (a closing tick ends the task with an error, any other tick does not end it), and nothing at all is
+    emitted after the task has ended. -/
+def step20 (limit : Nat) (st : M20) (x : TEntry) : Option M20 :=
+  if !st.alive then (if deadOk x then some st else none) else
+  match x with
+  | (.ticks k, obs, ended) =>
+    let r := kaSpec limit st.silent k
+    if obs = r.1 ∧ ended = (if r.2.2 then none else some false) then some { silent := r.2.1, alive := r.2.2 } else none
+  | (.frame m _ _, _, ended) => some { silent := if isKeepAlive m then st.silent else 0, alive := ended.isNone }
+  | (_, _, ended) => some { st with alive := ended.isNone }
+
+def P20 (limit silent : Nat) (tr : Trace) : Bool := checkTrace (step20 limit) { silent := silent, alive := true } tr
+
+/-! ### C08: only peers of the same torrent (and expected identity) are served -/
+
+structure M08 where
+  validated : Bool          -- a handshake has validated on this connection
+  expected : Option Bytes   -- the peer id the tracker announced (outgoing) or learned from the first valid handshake
+  alive : Bool
+
+/-- C08 monitor.
+    * the task's own handshake (first write of an outgoing connection, first reaction to a valid handshake on an
+      incoming one) carries the torrent's info-hash and the client's id;
+    * a handshake naming another info-hash or another peer id: nothing is sent in reaction, the task ends, and
+      nothing is ever sent afterwards;
+    * on an incoming connection, before a handshake has validated, no received frame triggers any write;
+    * piece data is written only after a handshake has validated. -/
+def hsValid (infoHash : Bytes) (expected : Option Bytes) (ih pid : Bytes) : Bool :=
+  decide (ih = infoHash) && (match expected with | some e => decide (e = pid) | none => true)
+
+def noPieceUnless (validated : Bool) (obs : List Obs) : Bool := validated || !obs.any isPieceWrite
+
+def startsWithOurHandshake (infoHash ownId : Bytes) (obs : List Obs) : Bool :=
+  decide ((writes obs).head? = some (.handshake infoHash ownId))
+
+def hsOf : Msg → Option (Bytes × Bytes)
+  | .handshake ih pid => some (ih, pid)
+  | _ => none
+
+def step08c (infoHash ownId : Bytes) (st : M08) (inp : TIn) (obs : List Obs) (ended : Option Bool) : Option M08 :=
+  match inp with
+  | .start _ =>
+    if (match st.expected with
+        | some _ => startsWithOurHandshake infoHash ownId obs
+        | none => obs.isEmpty) && noPieceUnless st.validated obs
+    then some { st with alive := ended.isNone } else none
+  | .frame m _ _ =>
+    match hsOf m with
+    | some (ih, pid) =>
+      if hsValid infoHash st.expected ih pid then
+        -- an incoming connection is answered with our handshake first; a repeated handshake is not answered
+        if (if st.expected.isNone then startsWithOurHandshake infoHash ownId obs else !obs.any isWrite) &&
+           !obs.any isPieceWrite
+        then some { validated := true, expected := some pid, alive := ended.isNone } else none
+      else
+        -- closed: nothing is sent in reaction, the task ends (its KillReq makes the manager forget the peer)
+        if !obs.any isWrite && ended.isSome then some { st with alive := false } else none
+    | none =>
+      -- no piece data before a valid handshake; on an incoming connection no reply at all
+      if noPieceUnless st.validated obs && (st.validated || st.expected.isSome || !obs.any isWrite)
+      then some { st with alive := ended.isNone } else none
+  | _ => if noPieceUnless st.validated obs then some { st with alive := ended.isNone } else none
+
+def step08 (infoHash ownId : Bytes) (st : M08) (x : TEntry) : Option M08 :=
+  if !st.alive then (if deadOk x then some st else none) else step08c infoHash ownId st x.1 x.2.1 x.2.2
+
+def P08 (infoHash ownId : Bytes) (expected : Option Bytes) (tr : Trace) : Bool :=
+  checkTrace (step08 infoHash ownId) { validated := false, expected := expected, alive := true } tr
 
 /-! ### C06 (level 3): a receive error ends the task at once -/
 
-/-- On a trace: at a `recvErr`/`eof` input of a live task the task ends with that very input (error end). -/
-def P06 : Bool → Trace → Bool
-  | _, [] => true
-  | alive, (inp, _, ended) :: rest =>
-    (match inp with
-     | .recvErr => !alive || ended == some false
-     | .eof => !alive || ended == some false
-     | _ => true) && P06 (alive && ended.isNone) rest
+def step06 (alive : Bool) (x : TEntry) : Option Bool :=
+  match x with
+  | (.recvErr, _, ended) => if !alive || ended == some false then some false else none
+  | (.eof, _, ended) => if !alive || ended == some false then some false else none
+  | (_, _, ended) => some (alive && ended.isNone)
+
+def P06 (tr : Trace) : Bool := checkTrace step06 true tr
 
 end Rdest.Swarm
